@@ -16,6 +16,7 @@ namespace Drv
 def tables : List (String → List String → Option String) := []
   ++ [Drv.table]
   ++ [Drv.monitorsTable]
+  ++ [Drv.codecsTable]
 
 /-- Stateful groups, selected by a first line `#mode <name>`. -/
 def modes : List Mode := []
